@@ -2,6 +2,8 @@
 use crate::base::*;
 use crate::fw::*;
 use crate::gen::*;
+use crate::net::*;
+use crate::scn::*;
 use crate::world::*;
 use serde_json::Map;
 use std::time::Instant;
@@ -22,6 +24,34 @@ pub fn cases(ctx: &Ctx) -> Vec<WCase> {
         let mut s = gen_death2(&mut rr, 400);
         s.mp = i % 13;
         out.push(wcase(format!("death2-{i}"), s));
+    }
+    // a mesh of three or four peers loses one peer, plays on, and LATER one of the remaining remotes stops delivering
+    // inputs for a while: the bound must then be computed from the players that are still connected
+    for i in 0..ctx.n(1500, 60_000) {
+        let mut rr = r.fork(0x3000_0000 + i as u64);
+        let mut s = Scn::base(rr.next());
+        s.peers = rr.pick(&[vec![vec![0], vec![1], vec![2]], vec![vec![0], vec![1], vec![2], vec![3]], vec![vec![0, 1], vec![2], vec![3]]]);
+        s.pred = rr.below(2) as u8;
+        s.mp = 1 + i % 12;
+        s.delay = rr.below(3) as usize;
+        s.sparse = rr.chance(0.4);
+        s.frames = 500;
+        s.notify_ms = 200;
+        s.timeout_ms = 500;
+        s.link = Link::clean(rr.pick(&[0u64, 10, 30]));
+        let n = s.peers.len();
+        let victim = 1 + rr.below(n as u64 - 1) as usize;
+        let t1 = rr.range(1500, 2500);
+        s.kill = Some(Kill { node: victim, at_ms: t1, pdrop: 0.0 });
+        // node 0 is starved by one of the remaining remotes (only input packets are held back: the link stays alive)
+        let starver = (1..n).filter(|x| *x != victim).nth(rr.below(n as u64 - 2) as usize).unwrap();
+        let a = t1 + 500 + rr.range(800, 2000);
+        let mut l = s.link.clone();
+        l.outages.push(Outage { from_ms: a, to_ms: a + rr.pick(&[300u64, 1000, 3000]), kinds: 1 << K_INPUT });
+        s.link_overrides.push((peer_addr(starver), peer_addr(0), l));
+        s.start = Start::AllRunning;
+        s.settle_ms = 500;
+        out.push(wcase(format!("dropstarve-{i}"), s));
     }
     out
 }
@@ -51,7 +81,7 @@ pub fn check(ctx: &Ctx) -> i32 {
     let res = par_run(ctx, &cs, &|c: &WCase| c.id.clone(), &run_case);
     let meta = Meta {
         level: "exploration",
-        rule: "grid windows 0..=12 x delays 0..=6 x sparse x topologies, one peer starved (outages 17 ms..50 s into it, or a paused remote), lossy links, lockstep with advance_frame / advance_frame_with_wait / _timeout, plus two-peer deaths. After every Ok call: a newly simulated frame N must satisfy N - confirmed_frame() <= window; every LoadGameState depth <= window; with window 0: no Save/Load, at most one AdvanceFrame, no Predicted status, Confirmed values equal the truth, a stalled call leaves current_frame() unchanged. Non-trivial: >=1 stalled call and >=1 new frame simulated exactly at distance == window (lockstep: >=1 stall and >=1 advance). Distinct: configuration bucket + trace hash.".into(),
+        rule: "grid windows 0..=12 x delays 0..=6 x sparse x topologies, one peer starved (outages 17 ms..50 s into it, or a paused remote), lossy links, lockstep with advance_frame / advance_frame_with_wait / _timeout, plus two-peer deaths, plus meshes of 3-4 peers that lose one peer and later have node 0 starved by one of the remaining remotes. After every Ok call: a newly simulated frame N must satisfy N - confirmed_frame() <= window AND N - K <= window, where K is the harness's own record of the newest input frame delivered from every remote address whose players are still connected; every LoadGameState depth <= window; with window 0: no Save/Load, at most one AdvanceFrame, no Predicted status, Confirmed values equal the truth, a stalled call leaves current_frame() unchanged. Non-trivial: >=1 stalled call and >=1 new frame simulated exactly at distance == window (lockstep: >=1 stall and >=1 advance). Distinct: configuration bucket + trace hash.".into(),
         assumptions: std_assumptions(),
         floor_nontrivial: if ctx.quick() { 150 } else { 4000 },
         exhaustive: None,
